@@ -2089,6 +2089,28 @@ func stickyJustified(c *Ctx, f *ssa.Function, sr *ssa.Parameter, retBlock *ssa.B
 		if sliceHas(sl, "field", "BoxHeader.Size") || sliceHas(sl, "call", "BoxHeader.payloadLen") || sliceHas(sl, "field", "BoxHeader.Hdrlen") {
 			return "the declared box size is validated against what is read"
 		}
+		// the same validation inside a checking helper: `if err := b.checkDeclaredSize(hdr, n); err != nil { return nil, err }`
+		if bo, ok := ifi.Cond.(*ssa.BinOp); ok && (bo.Op == token.NEQ || bo.Op == token.EQL) && bo.X.Type().String() == "error" {
+			if call, ok := bo.X.(*ssa.Call); ok {
+				for _, fact := range errorHelperFacts(call) {
+					hs := backSlice(c, fact.cond, 1)
+					if sliceHas(hs, "field", "BoxHeader.Size") || sliceHas(hs, "call", "BoxHeader.payloadLen") || sliceHas(hs, "field", "BoxHeader.Hdrlen") {
+						return "the declared box size is validated against what is read (in a checking helper)"
+					}
+					// the size handed to the helper as a plain number
+					if h := call.Call.StaticCallee(); h != nil {
+						for i, p := range h.Params {
+							if sliceHas(hs, "param", p.Name()) && i < len(call.Call.Args) {
+								as := backSlice(c, call.Call.Args[i], 1)
+								if sliceHas(as, "field", "BoxHeader.Size") || sliceHas(as, "call", "BoxHeader.payloadLen") {
+									return "the declared box size is validated against what is read (in a checking helper)"
+								}
+							}
+						}
+					}
+				}
+			}
+		}
 	}
 	// (b) children are decoded with the container helpers, which compare positions with the declared end
 	if len(callsIn(f, "mp4.DecodeContainerChildrenSR", false)) > 0 {
